@@ -75,6 +75,8 @@ Pairs(kind) ==
     {[b EXCEPT !.gamma = g, !.eps = e] : g \in {"zero", "mid", "one"}, e \in {"tiny", "half", "twenty", "twohundred", "million"}}
     \cup {[b EXCEPT !.gamma = g, !.period = x] : g \in {"mid", "one"}, x \in {1, 2}}
     \cup {[b EXCEPT !.gamma = g, !.test = t] : g \in {"zero", "one"}, t \in {"span", "max_diff"}}
+    \* checkpointing switched on together with the boundary values of the retention limit
+    \cup {[b EXCEPT !.freq = f, !.keep = k] : f \in {1, 2}, k \in {-1, 0, 1}}
 
 Grid(kind) == OneAtATime(kind) \cup Pairs(kind)
 
